@@ -466,6 +466,27 @@ func TestCheck(t *testing.T) {
 	if os.Getenv("VERIF_DUMP_HOOK") != "" {
 		_ = os.WriteFile(os.Getenv("VERIF_DUMP_HOOK"), jhb.Bytes(), 0o644)
 	}
+	// free-running rounds (free_test.go)
+	fb := &tv.Batch{}
+	nFree := ev.Pick(400, 6000)
+	for i := 0; i < nFree; i++ {
+		freeRound(fb, i)
+	}
+	frej, fres := tv.ValidateChunked(tlc.Opts{Dir: "CtxPool", Module: "TracePool", Config: "TracePool.cfg", Workers: 8, Timeout: ev.Pick(4*time.Minute, 20*time.Minute), HeapMB: 4000}, fb)
+	fmt.Printf("TLC free-running validation: ok=%v traces=%d rejected=%d wall=%s %s\n", fres.OK, fb.Len(), len(frej), fres.Wall.Round(time.Millisecond), fres.What)
+	if !fres.OK {
+		e.Inconclusive("free-running trace validation did not run: " + fres.What + fres.Tail(1500))
+	}
+	e.Set("free_running_rounds", int64(nFree))
+	for _, r := range frej {
+		key := strings.ReplaceAll(strings.Map(func(c rune) rune {
+			if c >= 'a' && c <= 'z' || c >= 'A' && c <= 'Z' || c == ' ' {
+				return c
+			}
+			return -1
+		}, r.Why), " ", "-")
+		e.Violation("free:"+key, r.Why, tv.M{"family": "free-running Add x Cancel x Size", "trace": fb.TraceStrings(r.Trace), "at": r.At})
+	}
 	selfTest(e)
 }
 
